@@ -1,8 +1,9 @@
 #!/bin/bash
 # development helper: every thorough tier in sequence (from a `vp run` snapshot); logs to thorough_logs/
+# USE_EXTRA=1 also loads findings_proposed/<id>.jsonl (draft findings) through XPMC_FINDINGS_EXTRA
 mkdir -p thorough_logs
-for i in 15 16 19 18 13 04 07 20 05 10 11 12 17 02 01 08 09 14 03 06; do id=C$i
-  f=findings_proposed/$id.jsonl; [ -f $f ] || f=
-  /usr/bin/time -f "%e" -o thorough_logs/$id.time env XPMC_FINDINGS_EXTRA=$f XPMC_NPROC=${XPMC_NPROC:-8} ./check $id --tier thorough > thorough_logs/$id.log 2>&1
+for i in ${ORDER:-15 16 19 18 13 04 07 20 05 10 11 12 17 02 01 08 09 14 03 06}; do id=C$i
+  f=; [ -n "$USE_EXTRA" ] && [ -f findings_proposed/$id.jsonl ] && f=findings_proposed/$id.jsonl
+  /usr/bin/time -f "%e" -o thorough_logs/$id.time env XPMC_FINDINGS_EXTRA=$f XPMC_EVIDENCE_DIR=$PWD/thorough_logs/evidence XPMC_NPROC=${XPMC_NPROC:-8} ./check $id --tier thorough > thorough_logs/$id.log 2>&1
   echo "$id exit=$? $(cat thorough_logs/$id.time)s viol=$(grep -c '^VIOLATION' thorough_logs/$id.log) known=$(grep -c '^KNOWN-FINDING' thorough_logs/$id.log)" >> thorough_logs/summary.log
 done
